@@ -17,7 +17,39 @@ Definition case_t : Type := c04case.
 Definition ok (c : case_t) : bool := case_ok c.
 "#;
 
-struct Ctx { sum: Summary, shards: CoqShards, budget: usize, all_queries: bool }
+struct Ctx { sum: Summary, shards: CoqShards, budget: usize, all_queries: bool,
+             // abort protection: FastVec bounds failures abort the process instead of panicking.  The whole run is first
+             // executed in a child process that logs every case before touching the library; a case the child died in
+             // is reported as a failure and skipped in this process.
+             probe_log: Option<std::fs::File>, case_no: usize, skip: std::collections::HashSet<usize>, stop_at: usize }
+impl Ctx {
+    fn begin_case(&mut self, cj: &Value) -> bool {
+        self.case_no += 1;
+        if self.skip.contains(&self.case_no) || self.case_no >= self.stop_at { return false; }
+        if let Some(f) = self.probe_log.as_mut() {
+            use std::io::Write;
+            let _ = writeln!(f, "{}", json!({"n": self.case_no, "case": cj}));
+            let _ = f.flush();
+        }
+        true
+    }
+}
+
+/// Run this binary again as a child on `spec`; returns (exited normally, last logged case).
+fn probe_child(args: &Args, spec: &Value, tag: usize) -> (bool, Option<Value>) {
+    let dir = format!("{}/probe_{}", args.out, tag);
+    std::fs::create_dir_all(&dir).ok();
+    let f = format!("{}/spec.json", dir);
+    std::fs::write(&f, spec.to_string()).ok();
+    let st = std::process::Command::new(std::env::current_exe().unwrap())
+        .args(["C04", "--seed", &args.seed.to_string(), "--tier", if args.thorough { "thorough" } else { "quick" }, "--out", &dir, "--replay", &f])
+        .stdout(std::process::Stdio::null()).stderr(std::process::Stdio::null()).status();
+    let ok = matches!(st, Ok(s) if s.success());
+    let last = std::fs::read_to_string(format!("{}/probe.log", dir)).ok()
+        .and_then(|t| t.lines().last().map(|l| l.to_string())).and_then(|l| serde_json::from_str::<Value>(&l).ok());
+    std::fs::remove_dir_all(&dir).ok();
+    (ok, last)
+}
 
 struct Oracle { bits: Vec<bool>, pre: Vec<usize>, ones: Vec<usize>, zeros: Vec<usize> }
 impl Oracle {
@@ -108,6 +140,7 @@ fn one_vector(cx: &mut Ctx, bits: &[bool], mode: u32, r: &mut Rng, to_coq: bool)
     let runs = runs_of(bits);
     let shown: Vec<Value> = runs.iter().take(400).map(|(b, k)| json!([*b as u8, k])).collect();
     let cj = json!({"runs": runs.iter().map(|(b, k)| json!([*b as u8, k])).collect::<Vec<_>>(), "mode": mode});
+    if !cx.begin_case(&cj) { return; }
     let class: Option<&str> = None;
     let nontrivial = n >= 65 && !o.ones.is_empty() && !o.zeros.is_empty();
     let key = format!("{:?} {}", shown, mode);
@@ -399,6 +432,7 @@ fn bv_history(cx: &mut Ctx, use_init: bool, init_size: usize, init_val: bool, op
     let name = "bitvector";
     let cj = json!({"cell": "bitvector/history", "init": {"use": use_init, "size": init_size, "val": init_val},
                     "ops": ops.iter().map(|(c, a, b)| json!([c, a, *b as u8])).collect::<Vec<_>>()});
+    if !cx.begin_case(&cj) { return; }
     let key = format!("{:?} {} {} {:?}", use_init, init_size, init_val, ops);
     let crosses = ops.iter().filter(|o| o.0 <= 7).count() >= 5;
     cx.sum.eval(name, &key, crosses);
@@ -489,11 +523,47 @@ pub fn run(args: &Args) {
         shards: CoqShards::new(HEADER, 40),
         budget: if args.thorough { 6000 } else { 600 },
         all_queries: args.thorough,
+        probe_log: None, case_no: 0, skip: Default::default(), stop_at: usize::MAX,
     };
     let mut rng = Rng::new(args.seed);
+    let mut replay_case: Option<Value> = None;
+    let mut is_child = false;
     if let Some(f) = &args.replay {
         let v: Value = serde_json::from_str(&std::fs::read_to_string(f).expect("replay file")).expect("json");
-        let c = if v.get("case").is_some() { v["case"].clone() } else { v };
+        if v.get("probe").and_then(|x| x.as_bool()) == Some(true) {
+            // child mode: same flow, every case logged before it runs, results discarded
+            is_child = true;
+            cx.probe_log = std::fs::File::create(format!("{}/probe.log", args.out)).ok();
+            if let Some(a) = v["skip"].as_array() { for x in a { cx.skip.insert(x.as_u64().unwrap_or(0) as usize); } }
+            if !v["case"].is_null() { replay_case = Some(v["case"].clone()); }
+        } else {
+            replay_case = Some(if v.get("case").is_some() { v["case"].clone() } else { v });
+        }
+    }
+    if !is_child {
+        for round in 0..4 {
+            let spec = json!({"probe": true, "skip": cx.skip.iter().cloned().collect::<Vec<_>>(), "case": replay_case.clone().unwrap_or(Value::Null)});
+            let (ok, last) = probe_child(args, &spec, round);
+            if ok { break; }
+            match last {
+                Some(l) => {
+                    let n = l["n"].as_u64().unwrap_or(0) as usize;
+                    if n == 0 || !cx.skip.insert(n) { break; }
+                    let cell = if l["case"].get("cell").is_some() { "bitvector" } else { "process" };
+                    cx.sum.eval(cell, &format!("abort {}", l["case"]), true);
+                    cx.sum.fail(cell, None, l["case"].clone(), "the process aborted (bounds failure / abort inside the library) while running this case");
+                    // many cases abort: after the last round only the cases before the next (unprobed) abort are run here
+                    if round == 3 {
+                        let spec = json!({"probe": true, "skip": cx.skip.iter().cloned().collect::<Vec<_>>(), "case": replay_case.clone().unwrap_or(Value::Null)});
+                        let (ok2, last2) = probe_child(args, &spec, 9);
+                        if !ok2 { cx.stop_at = last2.and_then(|l| l["n"].as_u64()).unwrap_or(0) as usize; }
+                    }
+                }
+                None => break,
+            }
+        }
+    }
+    if let Some(c) = replay_case {
         run_one(&mut cx, &c);
         let sh = cx.shards.write(&args.out);
         cx.sum.write(&args.out, sh);
